@@ -210,7 +210,9 @@ def evaluate(spec, value, roe, leaf_level=False, eager=False, leaf=leaf_outcome,
 
     default            : OR / AND short-circuit from the left; a node with raise_on_error=False turns
                          any exception from below into "not selected"
-    eager=True         : OR / AND evaluate every item (an exception in any item propagates)
+    eager=True         : AND evaluates every item (an exception in any item propagates); OR stays
+                         short-circuit (documented by Or: "if a selector was true, further ones are
+                         not applied"; And documents nothing about it)
     leaf_level=True    : an exception counts as False *at the leaf* as soon as any enclosing node
                          (or the leaf's own setting) has raise_on_error=False
     All readings coincide when one raise_on_error setting is used throughout and nothing raises past
@@ -257,14 +259,25 @@ def _ev1(spec, value, roe, guarded, leaf_level, eager, leaf, memo):
         return frozenset(out)
     if kind in ("or", "and"):
         stop_on = (kind == "or")
-        if not eager:
+        if not eager or kind == "or":
+            # left-to-right, stopping at the first deciding item.  An item may have several acceptable
+            # outcomes (an AND below, in the eager reading): every outcome that does not decide lets
+            # the evaluation go on to the next item.  OR is always evaluated this way: Or documents
+            # "Evaluation is short-circuit, that is if a selector was true, further ones are not applied".
+            out = set()
             for child in spec[1]:
-                (o,) = _ev(child, value, roe, guarded, leaf_level, eager, leaf, memo)
-                if o[0] == "exc":
-                    return frozenset((o,))
-                if o[1] == stop_on:
-                    return frozenset((("ok", stop_on),))
-            return frozenset((("ok", not stop_on),))
+                goes_on = False
+                for o in _ev(child, value, roe, guarded, leaf_level, eager, leaf, memo):
+                    if o[0] == "exc":
+                        out.add(o)
+                    elif o[1] == stop_on:
+                        out.add(("ok", stop_on))
+                    else:
+                        goes_on = True
+                if not goes_on:
+                    return frozenset(out)
+            out.add(("ok", not stop_on))
+            return frozenset(out)
         excs = set()
         vals = []
         for child in spec[1]:
